@@ -75,9 +75,15 @@ def main():
     known_sigs = {f['signature']: f for f in known.get('findings', []) if f['property'] == prop}
 
     # ---------------- 1. build + audit (proof obligations against the regenerated constants)
+    lib.prepare()
     closure_files = lib.closure(mod.PROPS_FILE)
     broken = []          # names of theorems / files / correspondences that no longer check
-    build = lib.build_coq() if not a.no_build else None
+    # only what this property needs is (re)built here: its Props file, its model files and everything they Require
+    need = set(closure_files)
+    for f in getattr(mod, 'MODEL_FILES', []):
+        need.update(lib.closure(f))
+    targets = sorted(os.path.splitext(f)[0] + '.vo' for f in need if os.path.exists(os.path.join(lib.COQ, f)))
+    build = lib.build_coq(targets=targets) if not a.no_build else None
     if build is not None:
         if build.gen_rc != 0:
             broken.append('gen_constants (translator of constants): ' + build.log.strip()[-300:])
